@@ -381,7 +381,7 @@ func (e *c02Env) runScript(sc c02Script, rep int) (string, map[string]interface{
 }
 
 func c02(r *ev.Run) {
-	r.Rule("forced orderings: {pause point holding the request} x {backend connection reset / closed, host removed, hosts replaced, client closes} x {simple request, MGET child, ASK-redirected request}, each repeated (a losing outcome may be a coin flip); full-queue script (node stops reading until > 1024 requests are outstanding, then dies); redirections between two backends whose queues are full (a cycle, and a host removal while a redirection into a silent full backend is pending); the service stopped under pipelined (and redirected) traffic; random fault stress with probabilistic delays at the pause points; distinct = distinct (hook, fault, class) scripts that reached their pause point + stress fault kinds")
+	r.Rule("forced orderings: {pause point holding the request} x {backend connection reset / closed, host removed, hosts replaced, client closes} x {simple request, MGET child, ASK-redirected request}, each repeated (a losing outcome may be a coin flip); full-queue script (node stops reading until > 1024 requests are outstanding, then dies); redirections between two backends whose queues are full (a cycle, and a host removal while a redirection into a silent full backend is pending); the service stopped under pipelined (and redirected) traffic; a ready reply followed by a request whose backend takes 3 s; random fault stress with probabilistic delays at the pause points; distinct = distinct (hook, fault, class) scripts that reached their pause point + stress fault kinds")
 	r.Assume("bounded-progress restatement of 'eventually': a request is lost if it is unanswered 3 s after the fault ended AND fresh canary requests through the same backends succeed AND two goroutine dumps 300 ms apart both show a session writer in rawRequest.Wait; anything else is inconclusive")
 	r.Assume("pause points are placed between critical sections / at channel operations only (utils/vhook), so every forced ordering is one the scheduler could produce")
 	switch os.Getenv("VERIF_C02_ONLY") { // debugging aid: the volume requirements then report the run inconclusive
@@ -396,6 +396,9 @@ func c02(r *ev.Run) {
 		return
 	case "stop":
 		c02StopUnderTraffic(r)
+		return
+	case "withheld":
+		c02ReplyWithheld(r)
 		return
 	}
 	e := &c02Env{r: r}
@@ -488,6 +491,7 @@ func c02(r *ev.Run) {
 	r.Require("redirect_cycle_answered", 1)
 	r.Require("host_removed_while_redirecting", 1)
 	c02StopUnderTraffic(r)
+	c02ReplyWithheld(r)
 	c02MultiKeyStorm(r)
 	runAPIPart(r, "children", false, nil, 10*time.Minute)
 	c02Stress(r)
@@ -1288,4 +1292,83 @@ func c02StopUnderTraffic(r *ev.Run) {
 		cl.Close()
 	}
 	r.Require("stops_under_traffic", 2)
+}
+
+// c02ReplyWithheld: replies are written in request order, but a reply that is ready must not wait in the proxy's write buffer for the
+// NEXT request to be answered: with a pipeline [GET on a fast node, GET on a node that takes 3 s], the first reply has to arrive
+// while the second is still outstanding (it would wait for ever if the second backend never answered).
+func c02ReplyWithheld(r *ev.Run) {
+	s, err := startSUT(r, false, 600000, 20)
+	if err != nil {
+		r.Internal("start sut: %v", err)
+		return
+	}
+	defer s.Close()
+	cl, err := fakecluster.New(2, 0)
+	if err != nil {
+		r.Internal("fakecluster: %v", err)
+		return
+	}
+	defer cl.Close()
+	cl.AssignContiguous()
+	cl.LogArgs = false
+	fast, slow := cl.Nodes[0], cl.Nodes[1]
+	const hold = 3 * time.Second
+	slow.Delay = func(args [][]byte) time.Duration {
+		if len(args) > 1 && strings.HasPrefix(string(args[1]), "held") {
+			return hold
+		}
+		return 0
+	}
+	svc, err := startRedisSvc(s, cl, cl.Addrs(), RedisOpts{})
+	if err != nil || !svc.WaitRouting(1, 10*time.Second) {
+		r.Internal("service did not start: %v", err)
+		return
+	}
+	reps := 3
+	if r.Tier == "thorough" {
+		reps = 10
+	}
+	for rep := 0; rep < reps; rep++ {
+		conn, err := svc.Dial()
+		if err != nil {
+			r.Internal("dial: %v", err)
+			return
+		}
+		kf := keysFor(cl, fast, 1, fmt.Sprintf("quick%d", rep))[0]
+		ks := keysFor(cl, slow, 1, fmt.Sprintf("held%d", rep))[0]
+		conn.DoS(5*time.Second, "SET", kf, "v") // backend connections exist
+		nfast := 1 + rep%3
+		var buf []byte
+		for i := 0; i < nfast; i++ {
+			buf = append(buf, resp.CmdS("GET", kf)...)
+		}
+		buf = append(buf, resp.CmdS("GET", ks)...)
+		start := time.Now()
+		conn.C.Write(buf)
+		got := 0
+		var firstAt time.Duration
+		for i := 0; i < nfast; i++ {
+			if _, err := conn.Read(hold + 5*time.Second); err != nil {
+				break
+			}
+			if i == 0 {
+				firstAt = time.Since(start)
+			}
+			got++
+		}
+		w := map[string]interface{}{"pipeline": fmt.Sprintf("%d x GET %s (node answers at once), GET %s (node answers after %s)", nfast, kf, ks, hold), "first_reply_after": firstAt.String(), "replies_before_the_slow_one": got}
+		switch {
+		case got < nfast:
+			r.Violation("C02:lost:reply-behind-slow-request", "a reply that was ready never arrived", w)
+		case firstAt > hold-500*time.Millisecond:
+			r.Violation("C02:reply-withheld-behind-unanswered-request", fmt.Sprintf("the reply of a request answered at once by its backend reached the client only after %s, together with the reply of the next request (whose backend took %s): it sat in the proxy's write buffer", firstAt.Round(time.Millisecond), hold), w)
+		default:
+			r.Count("ready_replies_delivered_before_the_slow_one", 1)
+		}
+		conn.Read(hold + 5*time.Second)
+		conn.Close()
+		r.Case(fmt.Sprintf("script/reply-withheld/fast=%d", nfast))
+	}
+	r.Require("ready_replies_delivered_before_the_slow_one", 1)
 }
